@@ -50,7 +50,8 @@ def mutate(rng, s):
             s.listeners_ctor.remove(L)
             pos = rng.randint(1, len(ops))
             ops.insert(pos, ("add_listener", L))
-            if not was_async or not any(c.coro for c in s.cbs if c.provider != L and s._cb_live_at_ctor(c)):
+            if not was_async or not any(c.coro and c.wrap != "lazy" for c in s.cbs
+                                        if c.provider != L and s._cb_live_at_ctor(c) and s._cb_bound(c)):
                 for c in s.cbs:
                     if c.provider == L:       # D12: an async listener attached late to a sync machine
                         c.coro, c.yields = False, 0
